@@ -191,10 +191,13 @@ class Exec(Ops):
     lits = []
     for s in list(Opaque._cache.keys()):
       pass
+    from . import sorts as _s
     for o in self._opaques():
-      lits.extend(o.literal_axioms())
+      if o.name in _s.USED_SORTS:     # only the sorts this path actually mentions
+        lits.extend(o.literal_axioms())
     for u in _ALL_UNIONS:
-      lits.extend(u.wf_axioms())
+      if u.name in _s.USED_SORTS:
+        lits.extend(u.wf_axioms())
     return self.axioms + lits + self.pc
 
   def _opaques(self):
@@ -680,6 +683,11 @@ class Exec(Ops):
         return self.seq_index(base, self.coerce(idx, INT).t)
       if isinstance(s, MapOf):
         k = self.coerce(idx, s.key)
+        dflt = getattr(s, 'default_factory', None)
+        if dflt is not None:
+          # collections.defaultdict: a missing key reads as the default (the insertion of the
+          # default entry is not modelled: only sound where the dict is not inspected afterwards)
+          return SV(s.val, z3.If(s.has(base.t, k.t), s.get(base.t, k.t), dflt()))
         if not self.spec_mode:
           self.oblige(s.has(base.t, k.t), 'safety:key')
           self.assume(s.has(base.t, k.t))
@@ -785,6 +793,11 @@ class Exec(Ops):
 
   def s_Assert(self, st, env):
     c = self.truthy(self.eval(st.test, env))
+    if 'AssertionError' in self.spec.raises_any or 'AssertionError' in self.spec.raises:
+      # the contract lets the function fail its own consistency assertion: an ordinary raise path
+      if not self.decide(c, 'assert'):
+        raise RaiseEx(ExcVal(TypeTag('AssertionError', (TypeTag('Exception'),))))
+      return
     self.oblige(c, 'assert')
     self.assume(c)
 
